@@ -286,6 +286,8 @@ def run(ctx):
     trl[names.index("stacksize")] = En({am.vi["Stacksize"]["_32"]: ()})
     I.events.clear()
     bc = I.run_body(p.need_body(TR + "::finish"), [Agg(trl)], st, 0)
+    from .. import symkeys
+    symkeys.obligations(ctx)
     bcf = p.field_names("L::compiler::ByteCode")
     ok = False
     det = repr(bc)[:300]
